@@ -121,7 +121,21 @@ def run_mc(run, cfgname, timeout):
     errs = tlc_errors(out)
     if rc != 0 or errs or "Model checking completed. No error has been found" not in out:
         raise Inconclusive("Leg A (%s): TLC did not complete cleanly (rc=%d): %s" % (cfgname, rc, errs[:3] or out[-800:]))
-    return {"cfg": cfgname, "states": distinct, "transitions": gen, "wall_s": round(time.time() - t0, 1)}
+    res = {"cfg": cfgname, "states": distinct, "transitions": gen, "wall_s": round(time.time() - t0, 1)}
+    # the view index (C12): the design, and three witnesses that must violate UpToDateIsExact
+    rc, out = run_tlc("RosmarView.tla", os.path.join(SPEC, "MC_View_design.cfg"), os.path.join(run, "meta_mc_view"), workers=16, timeout=timeout)
+    g2, d2 = tlc_stats(out)
+    if rc != 0 or tlc_errors(out) or "Model checking completed. No error has been found" not in out:
+        raise Inconclusive("Leg A (RosmarView): TLC did not complete cleanly: %s" % (tlc_errors(out)[:3] or out[-800:]))
+    for w in ("w_noinvalidate", "w_bucketmark", "w_clockblind"):
+        rcw, outw = run_tlc("RosmarView.tla", os.path.join(SPEC, "MC_View_%s.cfg" % w), os.path.join(run, "meta_mc_view_" + w), workers=8, timeout=600)
+        if "UpToDateIsExact is violated" not in outw:
+            raise Inconclusive("vacuity control: RosmarView witness %s no longer violates UpToDateIsExact" % w)
+    res["view_model"] = {"cfg": "MC_View_design", "states": d2, "transitions": g2,
+                         "witnesses_violate": ["InvalidateOnForeign=FALSE", "OwnMark=FALSE", "ClockSeesForeign=FALSE"]}
+    res["states"] += d2
+    res["transitions"] += g2
+    return res
 
 
 def validate(run, trace, workers=1, timeout=3600, chunk_lines=3000, par=8):
